@@ -186,7 +186,7 @@ fn lex_serde_bound(g: &proc_macro::Group) -> TokenTree {
 }
 /// the item headers of an expansion, in order: everything in front of the body of each `enum` and `impl` (doc comments dropped), and the
 /// associated types of the StructDiff impl; type aliases, `use` items and all bodies are left out
-fn split_headers(ts: Vec<TokenTree>, out: &mut Vec<Vec<TokenTree>>) {
+fn split_headers(ts: Vec<TokenTree>, out: &mut Vec<Vec<TokenTree>>, defs: &mut Vec<(&'static str, Vec<TokenTree>)>) {
     let mut cur: Vec<TokenTree> = vec![];
     let mut i = 0;
     while i < ts.len() {
@@ -199,8 +199,8 @@ fn split_headers(ts: Vec<TokenTree>, out: &mut Vec<Vec<TokenTree>>) {
             (TokenTree::Group(g), _) if g.delimiter() == Delimiter::Brace => {
                 let kind = item_kind(&cur);
                 let inner: Vec<TokenTree> = g.stream().into_iter().collect();
-                if kind == "const" { split_headers(inner, out); }
-                else if kind == "enum" { out.push(cur.clone()); }
+                if kind == "const" { split_headers(inner, out, defs); }
+                else if kind == "enum" { out.push(cur.clone()); defs.push(("BODY", inner)); }
                 else if kind == "impl" {
                     out.push(cur.clone());
                     if cur.iter().any(|t| matches!(t, TokenTree::Ident(id) if id.to_string() == "StructDiff")) {
@@ -216,7 +216,8 @@ fn split_headers(ts: Vec<TokenTree>, out: &mut Vec<Vec<TokenTree>>) {
                 }
                 cur.clear();
             }
-            (TokenTree::Punct(p), _) if p.as_char() == ';' => cur.clear(),
+            // a type alias (`use` items and the `;` that ends the const block are dropped)
+            (TokenTree::Punct(p), _) if p.as_char() == ';' => { if item_kind(&cur) == "type" { defs.push(("ALIAS", cur.clone())); } cur.clear() }
             (t, _) => cur.push(t.clone()),
         }
         i += 1;
@@ -258,12 +259,18 @@ pub fn dump_parse(input: TokenStream) -> TokenStream {
         if let Ok(d) = &parsed {
             text.push_str(&format!("ITEM {} HCFG dbg={} ns={} sd={} gs={}\n", sname, cfg!(feature = "debug_diffs") as u8, cfg!(feature = "nanoserde") as u8, cfg!(feature = "serde") as u8, cfg!(feature = "generated_setters") as u8));
             match std::panic::catch_unwind(|| difference::expand(d)) {
-                Err(_) => text.push_str(&format!("ITEM {} HDR PANIC\n", sname)),
+                Err(_) => text.push_str(&format!("ITEM {} HDRPANIC -\n", sname)),
                 Ok(ts) => {
                     let mut hs = vec![];
-                    split_headers(ts.into_iter().collect(), &mut hs);
+                    let mut defs = vec![];
+                    split_headers(ts.into_iter().collect(), &mut hs, &mut defs);
                     for (k, h) in hs.iter().enumerate() { let mut t = String::new(); tt_text(h, &mut t); text.push_str(&format!("ITEM {} HDR{} {}\n", sname, k, t)); }
                     text.push_str(&format!("ITEM {} HDRN {}\n", sname, hs.len()));
+                    // the generated type definitions (coq/parse/ParseBody.v): enum bodies in order, then the aliases in order
+                    for (tag, want) in [("BODY", "HDRBODY"), ("ALIAS", "HDRALIAS")] {
+                        for (k, (_, d)) in defs.iter().filter(|(t, _)| *t == tag).enumerate() { let mut t = String::new(); tt_text(d, &mut t); text.push_str(&format!("ITEM {} {}{} {}\n", sname, want, k, t)); }
+                    }
+                    text.push_str(&format!("ITEM {} HDRDEFS {}\n", sname, defs.len()));
                 }
             }
         }
